@@ -102,8 +102,8 @@ impl Property for C11 {
     }
     fn runs(&self, tier: Tier) -> u64 {
         match tier {
-            Tier::Quick => 3000,
-            Tier::Thorough => 30000,
+            Tier::Quick => 20000,
+            Tier::Thorough => 200000,
         }
     }
     fn rule(&self) -> &'static str {
